@@ -1693,6 +1693,11 @@ func (fx *fnExec) checkFrame() {
 	if fx.ctr == nil || (!fx.ctr.ModSet && !fx.ctr.Pure) {
 		return
 	}
+	if fx.ctr.Opts["frame"] == "assume" {
+		// the declared frame is taken for granted (bodies that call into C): reported as an assumption
+		fx.assumedNotes = append(fx.assumedNotes, fx.name+": declared frame (modifies "+strings.Join(fx.ctr.Modifies, ", ")+") is assumed, not checked")
+		return
+	}
 	ms := newModSet()
 	fx.v.inferMods(fx.fn, ms, map[*ssa.Function]bool{})
 	covered := func(p string) bool {
